@@ -191,6 +191,19 @@ def check_json(case, ctx):
             ctx.label("trim-sense:%r" % (t["sense"],))
     tmp = _tmpdir()
     try:
+        if not case["container"] and len(shapes[0]["P"]) % 3 == 0 and not shapes[0]["trims"]:
+            # a moved copy of the shape is written first; the shape itself is written afterwards and reads back as itself
+            from geomdl import operations
+            vec = [16.0, -8.0, 4.0][:objs[0].dimension]
+            moved = operations.translate(objs[0], vec)
+            fm = os.path.join(tmp, "moved.json")
+            exchange.export_json(moved, fm)
+            back = exchange.import_json(fm)
+            ctx.label("moved-copy-exported-first")
+            ctx.check(len(back) == 1, "json-count", "exported one moved copy, imported %d shapes" % len(back))
+            dm = dict(shapes[0])
+            dm["P"] = [[c + t for c, t in zip(q, vec)] for q in shapes[0]["P"]]
+            _same_geometry(ctx, "json-geometry", "JSON round trip of a translated copy", dm, moved, back[0])
         fn = os.path.join(tmp, "shape.json")
         exchange.export_json(target, fn)
         imported = exchange.import_json(fn)
